@@ -1,7 +1,9 @@
 """C02  Deb822 paragraphs survive dump and re-parse, whatever the input form.
 
-B-02 bounded stand-in (the regex line-class lemmas and parser-loop contracts of DESIGN §5 C02 are not
-generated yet): generated paragraphs (policy-valid names incl. names containing '#', '-', digits;
+R-02 (proved, all lines): how the real patterns _single / _multi / _multidata and the bytes patterns of
+split_gpg_and_payload classify the three kinds of line that dump() writes, and that the groups capture exactly the
+key and the first line (capture lemmas over the marked translation of vf/rx.py).
+B-02 bounded stand-in (the parser-loop contracts of DESIGN §5 C02 are not generated): generated paragraphs (policy-valid names incl. names containing '#', '-', digits;
 first lines with leading ':' / '#', embedded colons, empty; continuation lines starting with space or
 tab, ' .' lines, lines that look like fields or comments after the leading blank) are dumped and
 re-parsed in six input forms x {plain, PGP-clearsigned} x {comment lines interleaved or not}, as a
@@ -54,9 +56,109 @@ def with_comments(text, rng):
     return "\n".join(out) + "\n"
 
 
+# ------------------------------------------------------------------------------------------------
+# R-02: lemmas on the real line patterns, for ALL lines (SMT via rx).  The dump writes three kinds of line
+# ("Key: first", "Key:", continuation); the lemmas say how the parser's patterns classify each of them and what
+# the groups capture.  Capture lemmas use the marked translation (vf/rx.py: group boundaries as extra symbols over
+# all ways the pattern can match; what re reports is one of them).
+import re
+import z3
+from vf import rx
+from vf.runner import Unsupported
+
+RX_KEY = r"[!-\"$-,.-9;-~][!-9;-~]*"           # Policy 5.1: US-ASCII 33-126 without ':', not starting with '#' or '-'
+RX_FIRST = r"\S([^\n]*\S)?"                    # a non-empty stripped first line
+RX_CONT = r"[ \t][^\n\r\x0b\x0c\x1c\x1d\x1e\x1f\x85\xa0\u1680\u2000-\u200a\u2028\u2029\u202f\u205f\u3000]*"
+
+
+def regex_lemmas(ctx, real):
+    D = real.Deb822
+    fq = MOD + ":Deb822._internal_parser"
+    try:
+        env = rx.Env()
+        P = {n: env.add(getattr(D, n), name=n) for n in ("_single", "_multi", "_multidata")}
+        S = {n: env.add(t, 0, "spec " + n) for n, t in
+             (("key", RX_KEY), ("first", RX_FIRST), ("sep", ": "), ("colon", ":"), ("nl", "\n?"),
+              ("line1", RX_KEY + ": " + RX_FIRST + "\n?"), ("line2", RX_KEY + ":\n?"), ("cont", RX_CONT), ("ws", r"[ \t]+"))}
+        env.finalize()
+        n = rx.crosscheck(env, list(P.values()), "match", {"_single": ["key", "data"], "_multi": ["key"]})
+        ctx.notes.append("rx translation of _single/_multi/_multidata cross-checked against re on %d subjects" % n)
+        W = lambda k: env.lang(S[k], "fullmatch")
+        L = lambda k: env.lang(P[k], "match")
+        M1 = env.marked_lang(P["_single"], ["key", "data"])
+        M2 = env.marked_lang(P["_multi"], ["key"])
+        H1, H2 = env.erased_inverse(S["line1"]), env.erased_inverse(S["line2"])
+        E1 = env.expected([("key", S["key"]), S["sep"], ("data", S["first"]), S["nl"]])
+        E2 = env.expected([("key", S["key"]), S["colon"], S["nl"]])
+        NONBLANK = z3.Intersect(W("cont"), z3.Complement(W("ws")))
+        claims = [
+            ("R-02a every dumped 'Key: first' line matches _single", env.claim_subset(W("line1"), L("_single")), "_single"),
+            ("R-02a on a 'Key: first' line the groups of _single are exactly the key and the first line",
+             env.claim_subset(z3.Intersect(M1, H1), E1), "_single"),
+            ("R-02b every dumped 'Key:' line matches _multi", env.claim_subset(W("line2"), L("_multi")), "_multi"),
+            ("R-02b a dumped 'Key:' line does not match _single (which is tried first)",
+             env.claim_disjoint(W("line2"), L("_single")), "_single"),
+            ("R-02b on a 'Key:' line the key group of _multi is exactly the key",
+             env.claim_subset(z3.Intersect(M2, H2), E2), "_multi"),
+            ("R-02c a continuation line never matches _single", env.claim_disjoint(W("cont"), L("_single")), "_single"),
+            ("R-02c a continuation line never matches _multi", env.claim_disjoint(W("cont"), L("_multi")), "_multi"),
+            ("R-02c a non-blank continuation line matches _multidata", env.claim_subset(NONBLANK, L("_multidata")), "_multidata"),
+        ]
+        def replay_for(name, pat):
+            def rep(m):
+                line = env.realize(env.erase(m.get("w", "")))
+                got = getattr(D, pat).match(line)
+                out = {"line": line, "pattern": pat, "matches": got is not None,
+                       "groups": got.groupdict() if got else None}
+                if "groups of" in name or "key group" in name:
+                    key, _, rest = line.partition(":")
+                    exp = {"key": key}
+                    if pat == "_single":
+                        exp["data"] = rest[1:].rstrip("\n")
+                    out["expected_groups"] = exp
+                    out["confirmed"] = got is not None and got.groupdict() != exp
+                elif "never matches" in name or "does not match" in name:
+                    out["confirmed"] = got is not None
+                else:
+                    out["confirmed"] = got is None
+                return out
+            return rep
+        for name, (smt, var), pat in claims:
+            ctx.function_under_contract(MOD + ":Deb822." + pat, repr(getattr(D, pat).pattern))
+            ctx.vc(name, MOD + ":Deb822." + pat, smt, theory="str", model_vars=[var], kind="rx", replay=replay_for(name, pat))
+        for nm, r in (("no 'Key: first' line has a marked match", z3.Intersect(M1, H1)),
+                      ("no 'Key:' line has a marked match", z3.Intersect(M2, H2)), ("no non-blank continuation line", NONBLANK)):
+            smt, var = env.smt_empty(r)
+            ctx.vc("probe: %s (must NOT be discharged)" % nm, fq, smt, theory="str", probe=True, kind="probe")
+    except Unsupported as e:
+        ctx.mark_unproved(fq, "unsupported: %s" % e)
+    # the encoded lines as split_gpg_and_payload sees them
+    try:
+        envb = rx.Env(is_bytes=True)
+        pb = {n: envb.add(getattr(D, n), name=n) for n in ("_gpgre", "_blank_line_whitespace", "_blank_line_no_whitespace",
+                                                           "_initial_blank_line")}
+        fld = envb.add(RX_KEY.encode() + rb":[^\n]*", 0, "encoded field line")
+        envb.finalize()
+        n = rx.crosscheck(envb, list(pb.values()), "match")
+        ctx.notes.append("rx translation of the bytes patterns cross-checked against re on %d subjects" % n)
+        F = envb.lang(fld, "fullmatch")
+        for pn, what in (("_gpgre", "is never taken for a PGP armor line"), ("_blank_line_whitespace", "never ends the paragraph"),
+                         ("_blank_line_no_whitespace", "never ends the paragraph (whitespace does not separate)"),
+                         ("_initial_blank_line", "is never skipped as an initial blank line")):
+            smt, var = envb.claim_disjoint(F, envb.lang(pb[pn], "match"))
+            ctx.function_under_contract(MOD + ":Deb822." + pn, repr(getattr(D, pn).pattern))
+            ctx.vc("R-02d an encoded field line %s" % what, MOD + ":Deb822." + pn, smt, theory="str", model_vars=[var], kind="rx",
+                   replay=lambda m, envb=envb, pn=pn: {"line": repr(envb.realize(m.get("w", ""))), "pattern": pn,
+                                                       "confirmed": getattr(D, pn).match(envb.realize(m.get("w", ""))) is not None})
+    except Unsupported as e:
+        ctx.mark_unproved(MOD + ":Deb822.split_gpg_and_payload", "unsupported: %s" % e)
+    ctx.solve()
+
+
 def run(ctx):
     mod = extract.load(MOD)
     real = mod.real()
+    regex_lemmas(ctx, real)
     for q in ("Deb822._internal_parser", "Deb822._skip_useless_lines", "Deb822.split_gpg_and_payload", "Deb822._dump_format",
               "Deb822.iter_paragraphs", "Deb822._gpg_stripped_paragraph"):
         node, _ = mod.lookup(q)
@@ -123,8 +225,14 @@ def run(ctx):
             t.samples.append({"paragraphs": paras})
     t.done()
     ctx.level = "other"
-    ctx.explanation = "BOUNDED ONLY in this revision (see module docstring)."
-    ctx.assumptions += ["values contain no line-boundary characters other than '\\n' (same domain restriction as C08 states)",
+    ctx.explanation = ("PROVED for all lines (SMT on the real pattern objects): every dumped 'Key: first' line matches _single and its "
+                       "groups are exactly the key and the first line; every dumped 'Key:' line matches _multi (not _single) with the key "
+                       "as group; continuation lines never start a field and are kept by _multidata; an encoded field line is never "
+                       "taken for a PGP armor line, a paragraph separator or an initial blank line. NOT proved: the parser loop, "
+                       "_skip_useless_lines, the six input forms and iter_paragraphs - BOUNDED part (see module docstring).")
+    ctx.assumptions += ["capture lemmas quantify over every way the pattern can match (all-paths semantics of the regex); re reports one "
+                        "of them - the priority order of backtracking is not modelled and not needed",
+                        "values contain no line-boundary characters other than '\\n' (same domain restriction as C08 states)",
                         "gpg signature verification is not exercised (armor is only stripped)"]
 
 
